@@ -334,6 +334,8 @@ pub struct State {
     pub(crate) overheads: [u128; 4],
     pub(crate) overhead_measure_ticks: u64,
     pub(crate) overheads_measured: bool,
+    /// Model object of shim objects by address (see `Meta::get`).
+    pub(crate) by_addr: std::collections::HashMap<usize, u32>,
     pub(crate) user: Option<Arc<dyn std::any::Any + Send + Sync>>,
     pub(crate) precision_reads: u64,
     pub(crate) monitor: Option<Arc<dyn Monitor>>,
@@ -978,6 +980,7 @@ pub fn run(cfg: RunConfig, main: Box<dyn FnOnce() + Send>) -> RunResult {
         overheads: cfg.overheads,
         overhead_measure_ticks: cfg.overhead_measure_ticks,
         overheads_measured: false,
+        by_addr: std::collections::HashMap::new(),
         user: cfg.user.clone(),
         precision_reads: 0,
         monitor: cfg.monitor.clone(),
@@ -1092,7 +1095,20 @@ impl Meta {
         if (v >> 32) as u32 == epoch {
             return v as u32;
         }
+        let addr = self as *const Self as usize;
+        if v != 0 {
+            // The cache belongs to another simulation: the object outlives
+            // simulations — a `static` of the code under test — and several
+            // simulations of this process may use it at the same time, each
+            // overwriting the cache. Identity then goes by address, per
+            // simulation (a static never moves).
+            if let Some(&idx) = st.by_addr.get(&addr) {
+                self.0.store(((epoch as u64) << 32) | idx as u64, Ordering::Relaxed);
+                return idx;
+            }
+        }
         let idx = st.new_obj(make());
+        st.by_addr.insert(addr, idx);
         self.0.store(((epoch as u64) << 32) | idx as u64, Ordering::Relaxed);
         idx
     }
